@@ -147,10 +147,21 @@ class EndpointUrlArgsGenerator:
 
         # Header Parameters
         has_header_params = any(p.get("param_in") == "header" for p in ordered_params)
-        if has_header_params:
+        # A raw bytes body (e.g. application/octet-stream) is sent with content=, which sets no Content-Type itself
+        known_types = ("application/json", "multipart/form-data", "application/x-www-form-urlencoded")
+        raw_content_type = (
+            primary_content_type
+            if op.request_body and resolved_body_type == "bytes" and primary_content_type not in known_types
+            else None
+        )
+        if has_header_params or raw_content_type:
             context.add_import("typing", "Any")  # For dict[str, Any]
             context.add_import("typing", "Dict")  # For dict[str, Any]
             writer.write_line("headers: dict[str, Any] = {")
+            if raw_content_type:
+                writer.write_line(
+                    f'    **({{"Content-Type": {raw_content_type!r}}} if bytes_content is not None else {{}}),'
+                )
             # writer.indent()
             self._write_header_params(writer, op, ordered_params, context)
             # writer.dedent()
@@ -221,4 +232,4 @@ class EndpointUrlArgsGenerator:
                 writer.write_line(f"bytes_body: bytes = bytes_content")
             writer.write_line("")  # Add a blank line after body var setup
 
-        return has_header_params
+        return has_header_params or bool(raw_content_type)
